@@ -714,6 +714,9 @@ func (m *Manager) configureTasks(envId uid.ID, tasks Tasks) error {
 	// i.e. a map of the paths of registered inbound channels and their ports.
 	bindMap := make(channel.BindMap)
 	for _, task := range tasks {
+		if err = checkTaskGlobalAliases(task); err != nil {
+			return err
+		}
 		if task.GetParent() == nil { // Crash reported here by Roberto 6/2022
 			return fmt.Errorf("task %s on %s has nil parent, this should never happen", task.GetClassName(), task.GetHostname())
 		}
@@ -825,6 +828,29 @@ func isCriticalTask(task *Task) bool {
 		return true
 	}
 	return task.parent != nil && task.parent.GetTaskTraits().Critical
+}
+
+// checkTaskGlobalAliases rejects two inbound channels of one task that claim the same global alias:
+// the task's local bind map holds a single "::alias" entry, so the second claim would silently
+// replace the first instead of being reported as a redefinition.
+func checkTaskGlobalAliases(task *Task) error {
+	class := task.GetTaskClass()
+	parent := task.GetParent()
+	if class == nil || parent == nil {
+		return nil
+	}
+	claimedBy := make(map[string]string)
+	for _, inbCh := range channel.MergeInbound(parent.CollectInboundChannels(), class.Bind) {
+		if len(inbCh.Global) == 0 {
+			continue
+		}
+		if other, claimed := claimedBy[inbCh.Global]; claimed && other != inbCh.Name {
+			return fmt.Errorf("workflow template contains illegal redefinition of global channel alias ::%s by inbound channels %s and %s of task %s",
+				inbCh.Global, other, inbCh.Name, task.GetName())
+		}
+		claimedBy[inbCh.Global] = inbCh.Name
+	}
+	return nil
 }
 
 func (m *Manager) transitionTasks(envId uid.ID, tasks Tasks, src string, event string, dest string, commonArgs controlcommands.PropertyMap) error {
